@@ -196,11 +196,26 @@ Proof.
   apply T. apply Nat2Z.inj_lt. rewrite n9000_eq, Z2Nat.id; lia.
 Qed.
 
+Lemma iso_date_parses d : valid_date d -> strptime_ymd (firstn 10 (iso_date d)) = Some d.
+Proof.
+  intros V. destruct d as [y m dd0]. unfold iso_date, d4, d2; cbn [dy dm dd app firstn]. apply (strptime_ymd_ok _ _ _ V).
+Qed.
+
 Theorem date_reload_except_known d : valid_date d -> 1000 <= dy d -> reload_date d = RVal d.
 Proof.
-  intros V Hy. pose proof (valid_date_ranges _ V) as (Hy' & Hm & Hd). destruct d as [y m dd0]; cbn [dy dm dd] in *.
-  unfold reload_date, sqlite_date_sql2py, sqlite_date_py2sql, strftime_ymd; cbn [dy dm dd].
-  rewrite print_nat_4 by lia. unfold d4, d2. cbn [app firstn]. rewrite (strptime_ymd_ok _ _ _ V). reflexivity.
+  intros V Hy. pose proof (valid_date_ranges _ V) as (Hy' & Hm & Hd).
+  first [ (destruct d as [y m dd0]; cbn [dy dm dd] in *;
+           unfold reload_date, sqlite_date_sql2py, sqlite_date_py2sql, strftime_ymd; cbn [dy dm dd];
+           rewrite print_nat_4 by lia; unfold d4, d2; cbn [app firstn]; rewrite (strptime_ymd_ok _ _ _ V); reflexivity)
+        | (unfold reload_date, sqlite_date_sql2py, sqlite_date_py2sql; rewrite (iso_date_parses d V); reflexivity) ].
+Qed.
+
+(* every valid date, for a py2sql that writes four-digit years (flag computed from the translated code) *)
+Theorem date_reload_full_if_fixed d : date_text_pads_year = true -> valid_date d -> reload_date d = RVal d.
+Proof.
+  intros F V.
+  first [ (vm_compute in F; discriminate F)
+        | (unfold reload_date, sqlite_date_sql2py, sqlite_date_py2sql; rewrite (iso_date_parses d V); reflexivity) ].
 Qed.
 
 (* time: depends on what the translated sql2py returns (a sql2py whose strptime call or returned expression raises hands back the raw string) *)
@@ -304,9 +319,9 @@ Lemma date_999_valid : valid_date (mk_date 999 12 31).
 Proof. vm_compute. reflexivity. Qed.
 
 (* date(999, 12, 31) is written as '999-12-31' and comes back as that string *)
-Lemma date_below_1000_refuted :
+Lemma date_below_1000_refuted : date_text_pads_year = false ->
   valid_date (mk_date 999 12 31) /\ reload_date (mk_date 999 12 31) = RStr [57; 57; 57; 45; 49; 50; 45; 51; 49].
-Proof. split; [exact date_999_valid | vm_compute; reflexivity]. Qed.
+Proof. intros F. first [ (vm_compute in F; discriminate F) | (split; [exact date_999_valid | vm_compute; reflexivity]) ]. Qed.
 
 (* Decimal('1.239') in a scale-2 attribute: the writing session keeps 1.239, every later session reads 1.24 *)
 Lemma decimal_unrounded_refuted :
